@@ -54,7 +54,16 @@ func (r *chainRun) doInvoke(st *CStep, n *Node, failed *bool) *Violation {
 		}
 		return nil
 	}
-	resp, err := n.PreExecProg(from, st.Prog, nil)
+	// one invocation in three with at least two operations travels as two contract requests of one
+	// transaction, so gas, limits and the read/write set span requests
+	split := len(st.Prog) >= 2 && abs(st.B)%3 == 1
+	var resp *pb.InvokeResponse
+	var err error
+	if split {
+		resp, err = n.PreExecProgSplit(from, st.Prog, 1+abs(st.D)%(len(st.Prog)-1))
+	} else {
+		resp, err = n.PreExecProg(from, st.Prog, nil)
+	}
 	if err != nil {
 		r.rc.St.Probes["preexec-error"]++
 		r.logf("preexec error")
@@ -134,7 +143,7 @@ func (r *chainRun) doInvoke(st *CStep, n *Node, failed *bool) *Violation {
 	}
 	r.u.AddTx(tx.Txid)
 	serr := n.Chain.SubmitTx(n.BaseCtx(), CloneTx(tx))
-	r.logf("invoke %s mut=%q stale=%v failedcall=%v -> refused=%v | %s", hx(tx.Txid), mut, stale, failedCall, serr != nil, descTx(tx))
+	r.logf("invoke %s split=%v mut=%q stale=%v failedcall=%v -> refused=%v | %s", hx(tx.Txid), split, mut, stale, failedCall, serr != nil, descTx(tx))
 	*failed = serr != nil
 	switch {
 	case mut != "":
@@ -154,13 +163,16 @@ func (r *chainRun) doInvoke(st *CStep, n *Node, failed *bool) *Violation {
 	}
 	r.txs[string(tx.Txid)] = CloneTx(tx)
 	r.rc.St.Probes["invoke-admitted"]++
+	if split {
+		r.rc.St.Probes["invoke-with-two-requests-admitted"]++
+	}
 	if len(resp.UtxoInputs) > 0 {
 		r.rc.St.Probes["invoke-with-contract-transfer"]++
 		if len(resp.UtxoInputs) > 1 {
 			r.rc.St.Probes["invoke-with-several-contract-inputs"]++
 		}
 	}
-	if failedCall {
+	if failedCall && !split {
 		// a failed call (status >= 400) must change nothing
 		r.rc.St.Probes["failed-call-admitted"]++
 		if d := diffTables(beforeZU, rawTable(n, "ZU")); len(d) > 0 {
@@ -251,7 +263,9 @@ func mutKind(m string) string {
 // mutateInvokeTx applies one mutation and returns its description ("" if not applicable).
 func (r *chainRun) mutateInvokeTx(tx *lpb.Transaction, st *CStep, n *Node) string {
 	d := abs(st.D)
-	switch abs(st.C) % 12 {
+	// callers mutate only when st.C%3 != 0; spread those values over all eleven kinds
+	c := abs(st.C)
+	switch 1 + (c/3*2+c%3+10)%11 {
 	case 1:
 		if len(tx.TxInputsExt) == 0 {
 			return ""
@@ -339,6 +353,11 @@ func (r *chainRun) mutateInvokeTx(tx *lpb.Transaction, st *CStep, n *Node) strin
 			args[k] = v
 		}
 		args["prog"] = []byte(`[{"op":"put","k":"k0","v":"other"}]`)
+		if len(tx.ContractRequests) > 1 {
+			// with several requests a later one may overwrite k0 and hide the difference: write a key
+			// no program uses
+			args["prog"] = []byte(`[{"op":"put","k":"k-altered","v":"other"}]`)
+		}
 		rq.Args = args
 		return "requests:arguments altered"
 	case 8:
